@@ -1,4 +1,4 @@
-"""Model conformance vectors: pin the modelling decisions M1..M11 (DESIGN.md section 3).
+"""Model conformance vectors: pin the modelling decisions M1..M12 (DESIGN.md section 3).
 
 Plain asserts, run by `vcheck.py --selftest model` and by setup_cmd.  These drive the chip
 model directly over its SPI interface (no library code involved).
@@ -184,6 +184,34 @@ def t_m11_stale_ack_payload_sent_by_ptx():
     _run(sim, 10 * MS)
     assert [d for (_, d) in b.rx_fifo] == [b"STALE", b"fresh"], b.rx_fifo
     assert len(a.tx_fifo) == 0
+    return 2
+
+
+def t_m12_ack_finished_before_own_packet():
+    # B stores a packet at 250 kbps and is turned into a transmitter by its MCU while its auto-ACK (about 300 us on the air) is
+    # still being sent: B's own packet starts only after that ACK has ended - the two never overlap, A gets its TX_DS
+    sim, air, a, b = _pair()
+    _setup_link(a, b, ard=5)
+    for x in (a, b):
+        _w(x, 0x06, 0x27)       # 250 kbps
+    _w(b, 0x0A, 9, 9, 9, 9, 9)
+    _w(b, 0x10, 9, 9, 9, 9, 9)
+    a.xfer(b"\xa0ping")
+    a.set_ce(True)
+    for _ in range(400):
+        _run(sim, 10 * US)
+        if b.acking:
+            break
+    assert b.acking and b.rx_fifo, "B is sending its auto-ACK"
+    b.set_ce(False)
+    _w(b, 0x00, 0x0E)
+    b.xfer(b"\xa0own")
+    b.set_ce(True)
+    _run(sim, 20 * MS)
+    acks = [t for t in air.trace if t["src"] == "B" and t["ack"]]
+    own = [t for t in air.trace if t["src"] == "B" and not t["ack"]]
+    assert acks and own and own[0]["t0"] >= acks[0]["t1"], (acks[:1], own[:1])
+    assert a.flags & 0x20, "the ACK reached A intact"
     return 2
 
 
